@@ -406,7 +406,8 @@ def run(scenario, params, tape, detail=False):
             ncp.emit(inv, 0.0, "rsp")
 
             def again():
-                if any(c["seq"] == req.seq and c["started"] and not c["ended"] for c in calls) or stale_seq(req.seq):
+                others = [c for c in calls if c["seq"] == req.seq and c.get("raw") != req.raw]  # (other calls that used this sequence number)
+                if any(c["started"] and not c["ended"] for c in others) or any(c["ended"] and c["result"] and c["result"][0] != "ok" for c in others):
                     return
                 probe("duplicate_invalid_command")
                 ncp.emit(inv, 0.0, "rsp")
